@@ -2,6 +2,7 @@
 //! obtain exactly the results a sequential execution obtains.
 //!   conc stress <threads> <ops> <seed>      mixed compile/clone/search on shared state
 //!   conc first  <threads> <spins> <seed>    all threads race on the FIRST use of the default runtime
+//!   conc runtimes <threads> <rounds> <seed> one fresh runtime per round shared by all threads (lazy per-runtime state)
 //!   conc small  <seed>                      4 threads, ~40 operations incl. the first-use race (Miri / TSan)
 //! Prints one JSON line; exit 0 unless the harness itself failed.
 
@@ -284,6 +285,170 @@ fn first(threads: usize, spins: u64, nprobes: usize) -> Value {
            "problems": problems, "panics": panics, "probes": probes.len() * threads})
 }
 
+const TYPE_PROBES: [&str; 7] = ["type(`null`)", "type(`true`)", "type(`1.5`)", "type('s')", "type(`[1]`)", "type(`{\"a\": 1}`)", "type(`7`)"];
+
+fn by_doc() -> Value {
+    // eight key columns k0..k7, each ordering the ten records differently
+    let recs: Vec<Value> = (0..10u64)
+        .map(|i| {
+            let mut m = serde_json::Map::new();
+            m.insert("id".into(), json!(i));
+            for t in 0..8u64 {
+                m.insert(format!("k{}", t), json!((i * (2 * t + 3) + t) % 11));
+            }
+            Value::Object(m)
+        })
+        .collect();
+    Value::Array(recs)
+}
+
+/// ONE runtime object shared by all threads, a fresh one per round. Per-runtime state that is
+/// created lazily (name tables, memo tables, id allocators) is hit for the first time by several
+/// threads at once: after a sequential warm-up of random length the threads are released
+/// through a spin barrier, each compiles ITS OWN expressions through the shared runtime (same
+/// shapes, same offsets, different members / literals) and searches each four times; after the
+/// join the same runtime is swept sequentially. Every result is compared with the result a
+/// private runtime gave before the round.
+fn runtimes(threads: usize, rounds: usize, seed: u64) -> Value {
+    use std::sync::atomic::{AtomicUsize, Ordering};
+    let mut rng = Rng(seed ^ 0x5EED);
+    let doc = Rcvar::new(var_of(&by_doc()));
+    let fresh = || {
+        let mut rt = jmespath::Runtime::new();
+        rt.register_builtin_functions();
+        rt
+    };
+    let mut all_probes: Vec<&'static str> = PROBES.to_vec();
+    all_probes.extend_from_slice(&TYPE_PROBES);
+    let by_texts: Vec<Vec<String>> = (0..8)
+        .map(|t| {
+            vec![
+                format!("sort_by(@, &k{})[*].id", t),
+                format!("max_by(@, &k{}).id", t),
+                format!("min_by(@, &k{}).id", t),
+                format!("map(&k{}, @)", t),
+                format!("sort_by(@, &k{})[0].k{}", t, t),
+            ]
+        })
+        .collect();
+    // ground truth from private runtimes, one per expression, before anything is shared
+    let truth_probe: Vec<String> = all_probes.iter().map(|p| fp(&fresh().compile(p).and_then(|e| e.search(())))).collect();
+    let truth_by: Vec<Vec<String>> = by_texts.iter().map(|v| v.iter().map(|t| fp(&fresh().compile(t).and_then(|e| e.search(&doc)))).collect()).collect();
+    let mut mismatches: Vec<Value> = vec![];
+    let mut total = 0u64;
+    let mut panics = 0u64;
+    let mut warm_hist = std::collections::BTreeMap::new();
+    for round in 0..rounds {
+        let rt = fresh();
+        // sequential warm-up: one probe repeated, or a mix
+        let w = [0usize, 1, 2, 8, 31, 32, 33, 40, 64, 100][rng.below(10)];
+        let single = rng.below(all_probes.len());
+        let mixed = rng.below(3) == 0;
+        for k in 0..w {
+            let i = if mixed { rng.below(all_probes.len()) } else if rng.below(2) == 0 { single } else { PROBES.len() + (single % 2) };
+            let g = fp(&rt.compile(all_probes[i]).and_then(|e| e.search(())));
+            total += 1;
+            if g != truth_probe[i] && mismatches.len() < 6 {
+                mismatches.push(json!({"phase": "warm-up", "round": round, "call": k, "expression": all_probes[i], "private_runtime": truth_probe[i], "shared_runtime": g}));
+            }
+        }
+        *warm_hist.entry(w).or_insert(0u64) += 1;
+        let arrived = AtomicUsize::new(0);
+        let rot = rng.below(64);
+        let results: Vec<(Vec<Value>, u64, bool)> = thread::scope(|sc| {
+            let hs: Vec<_> = (0..threads)
+                .map(|t| {
+                    let (rt, arrived, doc, all_probes, by_texts, truth_probe, truth_by) = (&rt, &arrived, &doc, &all_probes, &by_texts, &truth_probe, &truth_by);
+                    sc.spawn(move || {
+                        let mut mism = vec![];
+                        let mut done = 0u64;
+                        let r = catch_unwind(AssertUnwindSafe(|| {
+                            arrived.fetch_add(1, Ordering::SeqCst);
+                            while arrived.load(Ordering::SeqCst) < threads {
+                                std::hint::spin_loop();
+                            }
+                            // (a) each thread compiles its own by-expressions through the shared runtime
+                            let mine = &by_texts[(t + rot) % 8];
+                            let compiled: Vec<_> = mine.iter().map(|x| rt.compile(x)).collect();
+                            // (b) the type probes in a thread-specific rotation, then the other built-ins
+                            for k in 0..TYPE_PROBES.len() {
+                                let i = PROBES.len() + (k + t + rot) % TYPE_PROBES.len();
+                                let g = fp(&rt.compile(all_probes[i]).and_then(|e| e.search(())));
+                                done += 1;
+                                if g != truth_probe[i] && mism.len() < 3 {
+                                    mism.push(json!({"phase": "concurrent", "round": round, "thread": t, "expression": all_probes[i], "private_runtime": truth_probe[i], "shared_runtime": g}));
+                                }
+                            }
+                            for rep in 0..4 {
+                                for (j, c) in compiled.iter().enumerate() {
+                                    let g = match c {
+                                        Ok(e) => fp(&e.search(doc)),
+                                        Err(e) => format!("compile-err:{}", e.reason),
+                                    };
+                                    done += 1;
+                                    let want = &truth_by[(t + rot) % 8][j];
+                                    if &g != want && mism.len() < 3 {
+                                        mism.push(json!({"phase": "concurrent", "round": round, "thread": t, "search_number": rep + 1, "expression": mine[j], "private_runtime": want, "shared_runtime": g}));
+                                    }
+                                }
+                            }
+                            for k in 0..PROBES.len() {
+                                let i = (k + 5 * t + rot) % PROBES.len();
+                                let g = fp(&rt.compile(all_probes[i]).and_then(|e| e.search(())));
+                                done += 1;
+                                if g != truth_probe[i] && mism.len() < 3 {
+                                    mism.push(json!({"phase": "concurrent", "round": round, "thread": t, "expression": all_probes[i], "private_runtime": truth_probe[i], "shared_runtime": g}));
+                                }
+                            }
+                        }));
+                        (mism, done, r.is_err())
+                    })
+                })
+                .collect();
+            hs.into_iter().map(|h| h.join().unwrap_or((vec![], 0, true))).collect()
+        });
+        for (m, d, p) in results {
+            for x in m {
+                if mismatches.len() < 6 {
+                    mismatches.push(x);
+                }
+            }
+            total += d;
+            if p {
+                panics += 1;
+            }
+        }
+        // sequential sweep of the same runtime afterwards: damage done during the race persists
+        for (i, p) in all_probes.iter().enumerate() {
+            let g = fp(&rt.compile(p).and_then(|e| e.search(())));
+            total += 1;
+            if g != truth_probe[i] && mismatches.len() < 6 {
+                mismatches.push(json!({"phase": "sequential-after-race", "round": round, "expression": p, "private_runtime": truth_probe[i], "shared_runtime": g}));
+            }
+        }
+        for t in 0..8 {
+            for (j, x) in by_texts[t].iter().enumerate() {
+                let e = rt.compile(x);
+                for _ in 0..3 {
+                    let g = match &e {
+                        Ok(e) => fp(&e.search(&doc)),
+                        Err(e) => format!("compile-err:{}", e.reason),
+                    };
+                    total += 1;
+                    if g != truth_by[t][j] && mismatches.len() < 6 {
+                        mismatches.push(json!({"phase": "sequential-after-race", "round": round, "expression": x, "private_runtime": truth_by[t][j], "shared_runtime": g}));
+                    }
+                }
+            }
+        }
+        if mismatches.len() >= 6 {
+            break;
+        }
+    }
+    json!({"mode": "stress", "threads": threads, "searches": total, "mismatches": mismatches, "panics": panics,
+           "interleaving": format!("runtimes{}x{}:{:?}", threads, rounds, warm_hist), "inputs_mutated": []})
+}
+
 fn main() {
     let a: Vec<String> = std::env::args().skip(1).collect();
     let num = |i: usize, d: u64| a.get(i).and_then(|v| v.parse().ok()).unwrap_or(d);
@@ -291,6 +456,7 @@ fn main() {
         Some("stress") => stress(num(1, 4) as usize, num(2, 1000) as usize, num(3, 1), 24, 6),
         Some("first") => first(num(1, 4) as usize, num(2, 0), 26),
         Some("burst") => burst(num(1, 4) as usize, num(2, 2000) as usize, num(3, 1)),
+        Some("runtimes") => runtimes(num(1, 4) as usize, num(2, 200) as usize, num(3, 1)),
         Some("small") => {
             // reduced sizes: this mode runs under Miri / ThreadSanitizer
             let f = first(4, 0, num(2, 6) as usize);
